@@ -20,8 +20,9 @@ class Oblig:
 
     def hyps(self, quantified=True):
         hs = list(self.pc)
+        terms = list(self.iterms)      # instantiating a fact must not feed new terms back in
         for U in self.universals:
-            for t in self.iterms:
+            for t in terms:
                 try:
                     h = U(t)
                 except Exception:
@@ -60,6 +61,7 @@ class Ctx:
         self.oo = None
         self.upreds = {}
         self.no_branch_record = False
+        self.frozen_iterms = 0
         self.aux = []       # (name, term): results of assumed callees etc. (for counter-model replay)
 
     # -- symbols -----------------------------------------------------------------------------
@@ -76,7 +78,8 @@ class Ctx:
     def inf(self):
         if self.oo is None:
             self.oo = z3.Real('np_inf')
-            self.pc.append(self.oo > 0)
+            # float('inf') in real mode: a constant above every finite double
+            self.pc.append(self.oo > z3.RealVal('2e308'))
         return self.oo
 
     def fdiv(self, a, b):
@@ -123,6 +126,8 @@ class Ctx:
         self.universals.append(fn)
 
     def add_iterm(self, t):
+        if self.frozen_iterms:
+            return
         if isinstance(t, int):
             t = z3.IntVal(t)
         if not is_z3(t) or not z3.is_int(t):
@@ -134,8 +139,9 @@ class Ctx:
 
     def hyps(self):
         hs = list(self.pc)
+        terms = list(self.iterms)      # instantiating a fact must not feed new terms back in
         for U in self.universals:
-            for t in self.iterms:
+            for t in terms:
                 try:
                     h = U(t)
                 except Exception:
